@@ -15,6 +15,13 @@ def negate (st : Nat) : Nat := if st = 0 then 1 else 0
 /-- `wait pid`: the exit status of that child if it is a child that has not been waited for, else 127 -/
 def wait (known : Option Nat) : Nat := known.getD 127
 
+/-- `wait` while a signal with a trap action arrives (XCU 2.12 Signals and Error Handling: "When the shell is
+    waiting, by means of the wait utility, for asynchronous commands to complete, the reception of a signal for
+    which a trap has been set shall cause the wait utility to return immediately with an exit status >128,
+    immediately after which the trap associated with that signal shall be taken"; yash: 384 + signal number).
+    The awaited job is NOT thereby waited for: a later `wait` for it still yields its status. -/
+def waitInterrupted (sig : Nat) : Nat := 384 + sig
+
 /-- `wait o1 … on` (n ≥ 1): every operand that names a child not yet waited for is waited for (and is
     thereby no longer waitable: `active` shrinks); the exit status is that of the LAST operand — the
     child's status, or 127 if the operand names no such child (unknown pid, unknown job ID, a child
